@@ -49,6 +49,75 @@ func focusedScopeShapes() []string {
 	return out
 }
 
+// focusedPathPredicateShapes: a NAMED PATH bound by a MATCH whose WHERE holds a PATTERN PREDICATE (translated against a snapshot of the scope
+// that then becomes the live scope), the path or its parts observed afterwards — directly, through nodes(p) / relationships(p) / length(p),
+// and through a WITH. The patterns include the shapes the optimiser reverses (only the terminal node selective, leading `*0..` expansion).
+func focusedPathPredicateShapes() []string {
+	var out []string
+	paths := []string{
+		"p = (a)-[r]->(b)",
+		"p = (a)-[r:EdgeKind1]->(b:NodeKind2)",
+		"p = (a)-[:EdgeKind1]->(b)-[:EdgeKind2]->(c)",
+		"p = (a)-[:EdgeKind1*1..2]->(b)",
+		"p = (a:NodeKind1)-[:EdgeKind1*0..]->(b:NodeKind2)-[:EdgeKind2]->(c:NodeKind2 {name: 'y'})",
+		"p = (a:NodeKind1)-[:EdgeKind1*0..]->(:NodeKind2)-[:EdgeKind2]->(c:NodeKind2 {name: 'y'})",
+		"p = (a)-[:EdgeKind1*1..]->(b)-[:EdgeKind2]->(c {name: 'y'})",
+		"p = (a)<-[:EdgeKind1]-(b {name: 'x'})",
+	}
+	preds := []string{
+		"(b)-[]->()",
+		"not (b)-[:EdgeKind2]->(:NodeKind2)",
+		"not (a)-[:EdgeKind2]->(:NodeKind2)",
+		"(a)-[:EdgeKind1]->()",
+		"not (a)<-[:EdgeKind1]-()",
+	}
+	tails := []string{
+		"return p",
+		"return nodes(p)",
+		"return relationships(p)",
+		"return length(p)",
+		"return a, p",
+		"with p return p",
+		"with p, a return nodes(p), id(a)",
+		"with p as pp return pp",
+		"return id(a)",
+	}
+	for _, pa := range paths {
+		for _, pr := range preds {
+			if strings.Contains(pr, "(b)") && !strings.Contains(pa, "(b") {
+				continue
+			}
+			for _, t := range tails {
+				out = append(out, "match "+pa+" where "+pr+" "+t)
+			}
+		}
+		// control: the same path without a pattern predicate
+		out = append(out, "match "+pa+" return p", "match "+pa+" return nodes(p)", "match "+pa+" return relationships(p)")
+	}
+	out = append(out,
+		"match p = (a)-[r]->(b) where (b)-[]->() and a.name = 'x' return p",
+		"match p = (a)-[r]->(b) where a.name = 'x' and not (b)-[]->() return p, r",
+		"match (x) match p = (a)-[r]->(b) where (b)-[]->(x) return p",
+		"match p = (a)-[r]->(b), (x) where (b)-[]->(x) return p, x",
+	)
+	return out
+}
+
+// focusedStringLiteralShapes: string predicates and equalities whose literal contains the characters LIKE treats specially (backslash, %, _)
+// and quotes; the emitted pattern must escape them so that the SQL matches exactly the raw string the Cypher predicate compares with.
+func focusedStringLiteralShapes() []string {
+	var out []string
+	lits := []string{`'C:\\U'`, `'C:\\Users\\'`, `'\\'`, `'\\bob'`, `'s\\bob'`, `':\\U'`, `'a%b'`, `'%'`, `'a%'`, `'a_b'`, `'_'`, `'a_'`, `'it\'s'`, `'\''`, `'x'`, `''`}
+	for _, l := range lits {
+		for _, op := range []string{"starts with", "ends with", "contains", "="} {
+			out = append(out, "match (n) where n.name "+op+" "+l+" return n")
+			out = append(out, "match (n) where not n.name "+op+" "+l+" return id(n)")
+		}
+		out = append(out, "match (a)-[r]->(b) where r.name contains "+l+" return a, r, b")
+	}
+	return out
+}
+
 // focusedWithShapes: renamings inside one WITH — fresh names, identity, shadowing, swaps and rotations, with and without a following clause.
 func focusedWithShapes() []string {
 	var out []string
